@@ -142,8 +142,22 @@ func (o *optionDefinitions) asOptions() []util.Option { //nolint: gocyclo,gocogn
 
 			opts[i] = options.WithTermWidth(intVal)
 		case transportSystemOpenArgs:
-			strSliceVal, ok := opt.Value.([]string)
-			if !ok {
+			var strSliceVal []string
+
+			switch t := opt.Value.(type) {
+			case []string:
+				strSliceVal = t
+			case []interface{}:
+				// this is what a yaml (or json) list decodes to
+				for _, e := range t {
+					strVal, ok := e.(string)
+					if !ok {
+						panic("option transportSystemOpenArgs value must be an array of strings")
+					}
+
+					strSliceVal = append(strSliceVal, strVal)
+				}
+			default:
 				panic("option transportSystemOpenArgs value must be an array of strings")
 			}
 
